@@ -31,7 +31,7 @@ def base_case(draw, max_n=256):
         opts['max_iters'] = draw(st.integers(1, 20))
     return {'sig': sig, 'opts': opts, 'interp': draw(st.sampled_from(['splrep', 'pchip', 'mono_pchip'])),
             'pad': draw(st.integers(1, 5)), 'par': draw(st.sampled_from([False, False, False, True])),
-            'magpad': draw(st.sampled_from([None, None, None, 0, 1, 2, 3]))}
+            'magpad': draw(st.sampled_from([None, None, None, 0, 1, 2, 3])), 'cap': draw(st.sampled_from([None, None, 2, 4]))}
 
 
 # magnitude padding rules that are odd and homogeneous (pad(-c*m) == -c*pad(m)), so the relations still have to hold with them
@@ -88,7 +88,7 @@ def run_imf(emd, x, case, sig):
 def run_sift(emd, x, case, thresh, sig):
     # records longer than 100 samples are decomposed to 8 components only (PCHIP sifts of long noisy records run to 100+
     # components of up to 1000 iterations each); the relations hold for capped runs just the same
-    cap = None if x.size <= 100 else 8
+    cap = case.get('cap') or (None if x.size <= 100 else 8)
     try:
         return np.asarray(emd.sift.sift(gens.arg(x), sift_thresh=thresh, max_imfs=cap, imf_opts=dict(case['opts']),
                                         envelope_opts={'interp_method': case['interp']},
